@@ -689,7 +689,12 @@ def _register_vector_gradient_rules() -> None:
         VectorUnarySum,
         VectorExpressionSum,
     )
-    from optyx.core.matrices import QuadraticForm
+    from optyx.core.matrices import (
+        FrobeniusNorm,
+        MatrixSum,
+        MatrixVariable,
+        QuadraticForm,
+    )
 
     @register_gradient(LinearCombination)
     def gradient_linear_combination(
@@ -934,6 +939,41 @@ def _register_vector_gradient_rules() -> None:
                 term = _simplify_mul(qf_i, d_elem)
                 result = _simplify_add(result, term)
             return result
+
+    @register_gradient(MatrixSum)
+    def gradient_matrix_sum(expr: MatrixSum, wrt: Variable) -> Expression:
+        """Gradient for matrix sum: ∂(Σ_ij M_ij)/∂x = Σ_ij ∂M_ij/∂x.
+
+        For a MatrixVariable this is the number of entries holding ``wrt``
+        (2 for an off-diagonal entry of a symmetric matrix, which
+        ``MatrixSum.evaluate`` counts twice); for a MatrixExpression it is
+        the sum of the element gradients.
+        """
+        mat = expr.matrix
+        if isinstance(mat, MatrixVariable):
+            count = sum(
+                1 for row in mat._variables for var in row if var.name == wrt.name
+            )
+            return Constant(float(count))
+        result: Expression = Constant(0.0)
+        for row in mat._expressions:
+            for elem in row:
+                result = _simplify_add(result, gradient(elem, wrt))
+        return result
+
+    @register_gradient(FrobeniusNorm)
+    def gradient_frobenius_norm(expr: FrobeniusNorm, wrt: Variable) -> Expression:
+        """Gradient for Frobenius norm: ∂||M||_F/∂x = (count · x) / ||M||_F.
+
+        ``count`` is the number of entries holding ``wrt`` (2 for an
+        off-diagonal entry of a symmetric matrix).
+        """
+        count = sum(
+            1 for row in expr.matrix._variables for var in row if var.name == wrt.name
+        )
+        if count == 0:
+            return Constant(0.0)
+        return _simplify_div(_simplify_mul(Constant(float(count)), wrt), expr)
 
     @register_gradient(VectorPowerSum)
     def gradient_vector_power_sum(expr: VectorPowerSum, wrt: Variable) -> Expression:
